@@ -301,6 +301,7 @@ func Check(c Case) *kit.Violation {
 	}
 	var mux http.Handler
 	var muxHit *answer
+	var postPats []Pat
 	if !c.Large {
 		var hs []denco.Handler
 		m := denco.NewMux()
@@ -309,6 +310,17 @@ func Check(c Case) *kit.Violation {
 			hs = append(hs, m.GET(p.Key(), func(_ http.ResponseWriter, _ *http.Request, ps denco.Params) {
 				muxHit = &answer{Found: true, Data: i, Params: ps}
 			}))
+		}
+		// every second pattern is also registered under POST, nothing under HEAD: which handler runs is decided per
+		// method, a method never borrows the patterns of another one (r6)
+		for i, p := range c.Pats {
+			if i%2 == 1 {
+				j := len(postPats)
+				postPats = append(postPats, p)
+				hs = append(hs, m.POST(p.Key(), func(_ http.ResponseWriter, _ *http.Request, ps denco.Params) {
+					muxHit = &answer{Found: true, Data: j, Params: ps}
+				}))
+			}
 		}
 		var err error
 		if v := kit.Guard("Mux.Build", func() { mux, err = m.Build(hs) }); v != nil {
@@ -361,6 +373,29 @@ func Check(c Case) *kit.Violation {
 			}
 			if !sameAnswer(got, mg) {
 				return kit.Failf("MUX-DIFFERS pats=%q path=%q: Router -> %v, Mux handler -> %v", keys(c.Pats), path, got, mg)
+			}
+			for _, method := range []string{http.MethodHead, http.MethodPost} {
+				muxHit = nil
+				rec := httptest.NewRecorder()
+				req := &http.Request{Method: method, URL: &url.URL{Path: path}, Header: http.Header{}}
+				if v := kit.Guard("Mux handler", func() { mux.ServeHTTP(rec, req) }); v != nil {
+					return kit.Failf("pats=%q %s path=%q: %s", keys(c.Pats), method, path, v.Msg)
+				}
+				var mg answer
+				if muxHit != nil {
+					mg = *muxHit
+				} else if rec.Code != http.StatusNotFound {
+					return kit.Failf("MUX pats=%q %s path=%q: no handler ran and the status is %d", keys(c.Pats), method, path, rec.Code)
+				}
+				if method == http.MethodHead {
+					if mg.Found {
+						return kit.Failf("MUX-METHOD pats=%q (all under GET, %q also under POST, none under HEAD): HEAD %q ran the handler %v", keys(c.Pats), keys(postPats), path, mg)
+					}
+					continue
+				}
+				if v := judge(postPats, path, mg); v != nil {
+					return kit.Failf("MUX-METHOD (POST request, judged against the patterns registered under POST only) %s", v.Msg)
+				}
 			}
 		}
 	}
@@ -730,7 +765,7 @@ func Classify(c Case) (bool, []string) {
 
 const rule = "pattern sets over literal/:name/final *name/RESTCONF lit=:name segments (names unique per pattern, no two patterns equal up to names) " +
 	"x lookup paths that are instantiations with arbitrary byte values (weighted to ': * # = /'), mutations of instantiations, or free byte strings; " +
-	"oracle = naive segment matcher (soundness, completeness for non-empty texts, static clause, literal<':'<'*' preference), identical answers for permuted insertion orders and through Mux.Build; " +
+	"oracle = naive segment matcher (soundness, completeness for non-empty texts, static clause, literal<':'<'*' preference), identical answers for permuted insertion orders and through Mux.Build (all patterns under GET, every second one also under POST and judged against those alone, none under HEAD: a HEAD request runs nothing); " +
 	"non-trivial = some path contains a reserved byte, or >=2 patterns fit it with non-empty texts, or one fits and the set has static/parameterised siblings; distinct by hash of the whole case"
 
 // Props lists the generated checks of C05.
